@@ -6,7 +6,9 @@ import (
 )
 
 // Lemma modules: a prelude module may mark assertions with a preceding comment line
-//   ;; lemma: <name> props=C01,C03
+//
+//	;; lemma: <name> props=C01,C03
+//
 // Such an assertion is used as an axiom by every function that `uses` the module, and is itself
 // an obligation: it must follow from the modules the file requires plus the text that precedes it.
 type lemmaOb struct {
@@ -76,20 +78,7 @@ func (v *verifier) lemmaObligations(p string) []*Obligation {
 		for _, r := range v.prelude.Mods[l.module].Requires {
 			tr.uses[r] = true
 		}
-		// heaps named by the modules
-		mods, _ := v.prelude.closure(append([]string{"core"}, v.prelude.Mods[l.module].Requires...))
-		text := l.before
-		for _, mn := range mods {
-			text += "\n" + v.prelude.Mods[mn].Text
-		}
-		for _, w := range strings.FieldsFunc(text, func(r rune) bool { return r == ' ' || r == '(' || r == ')' || r == '\n' || r == '\t' }) {
-			if (strings.HasPrefix(w, "A_") || strings.HasPrefix(w, "H_")) && strings.HasSuffix(w, "!0") {
-				name := strings.TrimSuffix(w, "!0")
-				if es, err := tr.sortByName(name[2:]); err == nil {
-					tr.touchHeap(name, es, name[0] == 'A')
-				}
-			}
-		}
+		tr.preludeHeaps(v.prelude.Mods[l.module].Requires)
 		tr.items = append(tr.items, item{replaceLits(l.before, tr), false})
 		o := &Obligation{Name: "spec/lemma[" + l.module + "." + l.name + "]", Fn: "spec", Kind: "lemma", Goal: l.body, Pos: len(tr.items), Props: l.props, Src: l.body, tr: tr}
 		if len(o.Src) > 300 {
